@@ -4,6 +4,7 @@
 //   node ::= ( ((id accept)..) ((pattern template)..) ((pattern node)..) pk pid )
 //   extra log entries: (30 (30 id)) middleware ran | (30 (31 id pathUtf8)) process() ran
 #include <QCoreApplication>
+#include <QMap>
 #include <QPointer>
 #include <QRegExp>
 #include <QSet>
@@ -64,7 +65,12 @@ Handler *build(const Val &n, Log *log, QObject *parent)
 {
     int pk = int(n.at(3).asInt()), pid = int(n.at(4).asInt());
     Handler *h = pk == 0 ? new Handler(parent) : new InstrHandler(log, pk, pid, parent);
-    for (auto &m : n.at(0).l) h->addMiddleware(new InstrMiddleware(log, int(m.at(0).asInt()), int(m.at(1).asInt()), h));
+    QMap<int, InstrMiddleware *> byId;      // an id that occurs again in the same handler is the same object attached again
+    for (auto &m : n.at(0).l) {
+        int id = int(m.at(0).asInt());
+        if (!byId.contains(id)) byId.insert(id, new InstrMiddleware(log, id, int(m.at(1).asInt()), h));
+        h->addMiddleware(byId.value(id));
+    }
     for (auto &r : n.at(1).l) h->addRedirect(QRegExp(QString::fromUtf8(r.at(0).asBytes())), QString::fromUtf8(r.at(1).asBytes()));
     for (auto &s : n.at(2).l) h->addSubHandler(QRegExp(QString::fromUtf8(s.at(0).asBytes())), build(s.at(1), log, h));
     return h;
